@@ -99,6 +99,19 @@ func ruleTeardown(c *Ctx, rule string) {
 		}
 		okDel, _ := reg.MustPassUp(entry, isCallTo(c, m.del))
 		c.Check(rule, key+":entry-deleted", p.Pos(g.Pos()), okDel, "the association goroutine can exit without deleting its table entry")
+		// ... and deletes under its key once only: a second deletion (e.g. a deferred safety net) removes the entry a new
+		// association of the same client has put under that key in the meantime, without closing it
+		isDelAny := func(ins ssa.Instruction) bool {
+			if isCallTo(c, m.del)(ins) {
+				return true
+			}
+			if d, ok := ins.(*ssa.Defer); ok {
+				return callTo(c, d, m.del) || qDefer(d, isCallTo(c, m.del))
+			}
+			return false
+		}
+		_, mxDel, _ := eng.CountOnPaths(entry, reg.May(isDelAny), nil)
+		c.Check(rule, key+":entry-deleted-at-most-once", p.Pos(g.Pos()), mxDel <= 1, fmt.Sprintf("the association goroutine deletes under its key up to %d times: after the first deletion the key may already belong to the client's next association, which is then dropped from the table while its socket stays open", mxDel))
 		for _, del := range dels {
 			f := del.Parent()
 			_, nonNil := p.NilEdges(f, func(v ssa.Value) bool { return v == ssa.Value(del) })
